@@ -51,7 +51,12 @@ pub fn enum_properties_inner(ast: &DeriveInput) -> syn::Result<TokenStream> {
                 Lit::Str(..) => PropertyType::String,
                 Lit::Bool(..) => PropertyType::Bool,
                 Lit::Int(..) => PropertyType::Integer,
-                _ => todo!("TODO"),
+                _ => {
+                    return Err(syn::Error::new_spanned(
+                        &value,
+                        "strum(props(..)) only supports string, integer and boolean literals",
+                    ))
+                }
             };
 
             arms.get_mut(&property_type)
